@@ -2142,14 +2142,17 @@ class Circuit(Unitary, StateVectorMap, Collection[Operation]):
         circuit = self.batch_pop(region.points)
 
         # Insert popped circuit as a CircuitGate
-        self.insert_circuit(
-            region.min_cycle,
-            circuit,
-            sorted(list(region.keys())),
-            True,
-        )
+        location = sorted(list(region.keys()))
+        cycle_index = region.min_cycle
 
-        return CircuitPoint(region.min_cycle, region.min_qudit)
+        if cycle_index < self.num_cycles:
+            self.insert_circuit(cycle_index, circuit, location, True)
+
+        else:
+            # The region's cycles vanished with its operations
+            cycle_index = self.append_circuit(circuit, location, True)
+
+        return CircuitPoint(cycle_index, region.min_qudit)
 
     def unfold(self, point: CircuitPointLike) -> None:
         """Unfold the CircuitGate at `point` into the circuit."""
